@@ -6,6 +6,7 @@ import (
 	"errors"
 	"fmt"
 	"io"
+	"os"
 	"sync"
 	"time"
 
@@ -304,8 +305,9 @@ type inst struct {
 	blobs   *lowStore
 	meta    *lowStore
 
-	inc  int
-	plan *inject.Plan
+	inc      int
+	plan     *inject.Plan
+	lastPlan *inject.Plan // plan of the most recent creation attempt
 	kv   *spyKV
 	S    blobserver.Storage
 	m0   int // meta blobs present when the current incarnation started
@@ -314,7 +316,11 @@ type inst struct {
 const agree = "that encryption support hasn't been peer-reviewed, isn't finished, and its format might change."
 
 func newInst(r *ev.Run, root, id string) (*inst, error) {
-	env := &sto.Env{Dir: root}
+	dir, err := os.MkdirTemp(root, id+"-")
+	if err != nil {
+		return nil, err
+	}
+	env := &sto.Env{Dir: dir}
 	kf, err := sto.WriteAgeKey(env)
 	if err != nil {
 		return nil, err
@@ -332,6 +338,7 @@ func (in *inst) create(arm func(p *inject.Plan)) (blobserver.Storage, *inject.Pl
 		l.mu.Unlock()
 	}
 	plan := inject.NewPlan()
+	in.lastPlan = plan
 	if arm != nil {
 		arm(plan)
 	}
@@ -382,18 +389,9 @@ func (in *inst) compactionCounts() (launched, terminated int) {
 // It is a wait for an event; a timeout is reported by the caller as inconclusive.
 func (in *inst) waitQuiesce(d time.Duration) bool {
 	deadline := time.Now().Add(d)
-	stable := 0
 	for {
 		l, t := in.compactionCounts()
-		if t >= l {
-			stable++
-			if stable >= 3 {
-				return true
-			}
-		} else {
-			stable = 0
-		}
-		if in.plan.Frozen() {
+		if t >= l || in.plan.Frozen() {
 			return true
 		}
 		if time.Now().After(deadline) {
